@@ -16,6 +16,8 @@ use refmodel::{
 pub struct Walk {
     pub ranges: Vec<(usize, usize, &'static str)>,
     pub problems: Vec<String>,
+    /// capacity() of every FlatVec / FlatString in traversal order
+    pub caps: Vec<usize>,
 }
 impl Walk {
     pub fn obj<T: ?Sized>(&mut self, x: &T, what: &'static str) {
@@ -388,6 +390,10 @@ impl<T: SizedNode, L: LenNode> Node for FlatVec<T, L> {
                 _ => vec::FromIterator(items.iter().map(T::from_value)).emplace_unchecked(bytes),
             },
             Kind::Grow => {
+                // a well-behaved user emplacer: find out whether it fits before touching anything
+                if Self::from_mut_bytes_unchecked(bytes).capacity() < items.len() {
+                    return Err(Error { kind: ErrorKind::InsufficientSize, pos: 0 });
+                }
                 let this = <vec::Empty as Emplacer<Self>>::emplace_unchecked(vec::Empty, bytes)?;
                 for it in items {
                     if this.push(T::from_value(it)).is_err() {
@@ -402,9 +408,13 @@ impl<T: SizedNode, L: LenNode> Node for FlatVec<T, L> {
         w.obj(self, "vec");
         w.bytes(self.as_bytes(), "vec.as_bytes");
         let (len, cap) = (self.len(), self.capacity());
+        w.caps.push(cap);
         if len > cap {
             w.problems.push(format!("FlatVec len {} > capacity {}", len, cap));
             return;
+        }
+        if self.is_full() != (len == cap) || self.is_empty() != (len == 0) {
+            w.problems.push("FlatVec is_full/is_empty inconsistent".into());
         }
         if self.remaining() != cap - len {
             w.problems.push("FlatVec remaining != capacity - len".into());
@@ -490,6 +500,9 @@ impl<L: LenNode> Node for FlatString<L> {
         match kind {
             Kind::Iter | Kind::Literal => string::FromStr(s).emplace_unchecked(bytes),
             Kind::Grow => {
+                if Self::from_mut_bytes_unchecked(bytes).capacity() < s.len() {
+                    return Err(Error { kind: ErrorKind::InsufficientSize, pos: 0 });
+                }
                 let this = <string::Empty as Emplacer<Self>>::emplace_unchecked(string::Empty, bytes)?;
                 for c in s.chars() {
                     if this.push(c).is_err() {
@@ -504,9 +517,13 @@ impl<L: LenNode> Node for FlatString<L> {
         w.obj(self, "str");
         w.bytes(self.as_bytes(), "str.as_bytes");
         let (len, cap) = (self.len(), self.capacity());
+        w.caps.push(cap);
         if len > cap {
             w.problems.push(format!("FlatString len {} > capacity {}", len, cap));
             return;
+        }
+        if self.remaining() != cap - len || self.is_full() != (len == cap) || self.is_empty() != (len == 0) {
+            w.problems.push("FlatString remaining/is_full/is_empty inconsistent".into());
         }
         let s = self.as_vec().as_slice();
         w.bytes(s, "str.data");
